@@ -64,6 +64,8 @@ func fv(h, rest...) { var acc = h; for r in rest { if r < 0 { throw "negative" }
 func fvv(rest...) { var acc = 0; for r in rest { if r < 0 { throw "negative" }; acc += r }; return acc }
 func f5t(a, b, c, d, e) { if e < 0 { throw "negative" }; return a + b + c + d + e }
 func sw(f, v) { try { return f() } catch e { return v } }
+sort9 = import("sort")
+strings9 = import("strings")
 `
 
 // forms: %s is the hole. kind = type context of the hole: "i" int, "b" bool, "s" string, "l" list
@@ -123,7 +125,9 @@ g2 = func() { defer pv("gd", p(41)); return p(42), p(43) }
 after5 = g2()
 after6 = 0; for i = 0; i < 3; i++ { after6 += i }
 after7 = sw(func() { return 77 }, 0)
-[r, after1, after2, after3, after4, aa, mm.k, x2, y2, after5, after6, after7]
+after8 = [toInt("42"), len(range(1, 10, 3)), len(keys(m9)), typeOf(1), toString(5), strings9.ToUpper("ab"), strings9.Map(func(c) { return c + 1 }, "abc")]
+ls9 = [3, 1, 2]; sort9.Slice(ls9, func(i, j) { return ls9[i] < ls9[j] })
+[r, after1, after2, after3, after4, aa, mm.k, x2, y2, after5, after6, after7, after8, ls9]
 `
 
 // faults by type context; each fails after evaluating a pure part of itself. value = the fallback V.
@@ -151,6 +155,9 @@ var swFaults = []swFault{
 	{"return-list-fails", "i", "func() { return 1, missing9, 3 }()[0]", "5"},
 	{"defer-arg-fails", "i", "func() { defer pv(0, missing9); return 1 }()", "5"},
 	{"wrong-arg-count", "i", "1 + f3(1, 2) + 3", "5"},
+	{"sort-callback-throws", "i", "func() { q9 = [5, 3, 4, 1, 2]; n9 = 0; sort9.Slice(q9, func(i, j) { n9 += 1; if n9 == 2 { throw \"cmp\" }; return q9[i] < q9[j] }); return 1 }()", "5"},
+	{"map-callback-throws", "i", "len(strings9.Map(func(c) { if c == 99 { throw \"bad rune\" }; return c }, \"abcd\"))", "5"},
+	{"map-callback-unbound", "i", "len(strings9.Map(func(c) { if c == 98 { return missing9 }; return c }, \"abcd\"))", "5"},
 	{"and-chain-fails", "b", "yes && missing9 && no", "yes"},
 	{"or-chain-fails", "b", "no || missing9 || yes", "yes"},
 	{"and-chain-host-panic", "b", "yes && yes && pe(98) && no", "yes"},
@@ -201,20 +208,44 @@ func swBuild() []swCase {
 		{"nested-fn-fails", "func() { n1 = 93; n2 = missing9 }()"},
 		{"defer-in-block-fails", "func() { defer func() { n3 = missing9 }(); n1 = 94 }()"},
 		{"throw-in-finally", "try { n1 = 95 } catch e { } finally { n2 = missing9 }"},
+		{"defer-host-args-fail", "defer pv(\"dh\", missing9)"},
+		{"defer-script-args-fail", "defer f3(1, missing9, 3)"},
+		{"defer-variadic-args-fail", "defer fvv(1, 2, thr(3))"},
+		{"defer-literal-args-fail", "defer func(a, b) { n3 = a }(1, missing9)"},
+		{"go-args-fail", "go f3(1, missing9, 3)"},
+		{"return-in-try-args-fail", "x9 = f6(1, 2, 3, 4, 5, missing9)"},
 	}
+	follow := "n1 = 41\nn2 = 42\nn3 = 43\nl3 = [4, 5, 6]\nm3 = {\"b\": 2}\nvar loc = n1 + n2\nrd(\"inner\", [n1, n2, n3, l3, len(m3), loc])\n"
 	for _, st := range stmts {
-		mk := func(faulty bool) string {
-			body := ""
-			if faulty {
-				body = "  try { " + st.stmt + " } catch e8 { }\n"
+		for _, place := range []string{"after", "in-catch", "in-finally"} {
+			mk := func(faulty bool) string {
+				body := ""
+				switch place {
+				case "after":
+					if faulty {
+						body = "try { " + st.stmt + " } catch e8 { }\n"
+					}
+					body += follow
+				case "in-catch":
+					if faulty {
+						body = "try { " + st.stmt + " } catch e8 {\n" + follow + "}\n"
+					} else {
+						body = "try { throw \"plain\" } catch e8 {\n" + follow + "}\n"
+					}
+				case "in-finally":
+					if faulty {
+						body = "try { " + st.stmt + " } catch e8 { } finally {\n" + follow + "}\n"
+					} else {
+						body = "try { } catch e8 { } finally {\n" + follow + "}\n"
+					}
+				}
+				return swPrelude + "r = 0\nn1 = 1\nn2 = 2\nn3 = 3\nl3 = [1, 2, 3]\nm3 = {\"a\": 1}\n" +
+					"func outer() {\n  func inner() {\n" + body + "rd(\"inner-end\", [n1, n2, n3])\n  }\n" +
+					"  inner()\n  rd(\"outer\", [n1, n2, n3, l3, len(m3)])\n  n1 = 51\n  rd(\"outer2\", n1)\n}\nouter()\nrd(\"top\", [n1, n2, n3, l3, len(m3)])\n" +
+					"n1 = 61\nrd(\"top2\", n1)\n" + swAfter
 			}
-			return swPrelude + "n1 = 1\nn2 = 2\nn3 = 3\nl3 = [1, 2, 3]\nm3 = {\"a\": 1}\n" +
-				"func outer() {\n  func inner() {\n" + body +
-				"    n1 = 41\n    n2 = 42\n    n3 = 43\n    l3 = [4, 5, 6]\n    m3 = {\"b\": 2}\n    var loc = n1 + n2\n    rd(\"inner\", [n1, n2, n3, l3, len(m3), loc])\n  }\n" +
-				"  inner()\n  rd(\"outer\", [n1, n2, n3, l3, len(m3)])\n  n1 = 51\n  rd(\"outer2\", n1)\n}\nouter()\nrd(\"top\", [n1, n2, n3, l3, len(m3)])\n" +
-				"n1 = 61\nrd(\"top2\", n1)\n"
+			out = append(out, swCase{"statement/" + st.name + "/" + place, []string{"C04", "C08", "C09"}, mk(true), mk(false)})
 		}
-		out = append(out, swCase{"statement/" + st.name, []string{"C04", "C08", "C09"}, mk(true), mk(false)})
 	}
 	return out
 }
@@ -277,7 +308,7 @@ func swRun(c *wk.Case) {
 	parts := strings.Split(g.name, "/")
 	sig := "swallowed:" + parts[0] + ":" + parts[len(parts)-1]
 	if parts[0] == "statement" {
-		sig = "swallowed:statement:" + parts[1]
+		sig = "swallowed:statement:" + parts[1] + ":" + parts[2]
 	}
 	if a.ErrText != "" {
 		c.Violation(sig+":error", "a fault that is swallowed (by ??, a catching function or try/catch) must leave the code around it as if its outcome had been written there: the program ended with error "+strconv.Quote(a.ErrText)+", its fault-free sibling without", input)
